@@ -4,7 +4,26 @@
   sub-function, error-kind bookkeeping. CORE LEAN ONLY.
 -/
 import Algobra.Model.Hist
+import Lean.Elab.Tactic
+set_option linter.unusedSimpArgs false
 namespace Algobra
+
+/-- `by_cases` on the outermost `if` condition of the goal and rewrite every `if` with that condition.
+    (The built-in `split` runs a `simp` that exceeds its step limit on the big `step` terms.) -/
+elab "split_if_goal" : tactic => do
+  let g ← Lean.Elab.Tactic.getMainGoal
+  let t ← Lean.instantiateMVars (← g.getType)
+  let some e := t.find? (fun e => e.isAppOfArity ``ite 5 && !(e.getArg! 1).hasLooseBVars)
+    | throwError "split_if_goal: no if-then-else"
+  let cStx ← Lean.Elab.Term.exprToSyntax (e.getArg! 1)
+  Lean.Elab.Tactic.evalTactic
+    (← `(tactic| by_cases hc : $cStx <;> simp only [hc, if_true, if_false, ↓reduceIte, not_true_eq_false, not_false_eq_true, Bool.false_eq_true]))
+
+/-- a concrete environment for the non-vacuity examples: GF(5), base rings only -/
+def env5 : Env Nat where
+  fld := fun _ => primeOps 5
+  uring := fun _ => { F := primeOps 5, varName := "X", modulus := none }
+  bring := fun _ => { F := primeOps 5, ord := ⟨.lex, true⟩, varNames := ("X", "Y"), ideal := none }
 
 /-! ### association lists -/
 namespace St
@@ -335,11 +354,257 @@ variable {α : Type} (env : Env α)
 /-- same registers, possibly different table-presence lists -/
 def St.withTabs (s : St α) (a m : List Nat) : St α := { s with addTabs := a, mulTabs := m }
 
+@[simp] theorem St.withTabs_es (s : St α) (a m : List Nat) : (s.withTabs a m).es = s.es := rfl
+@[simp] theorem St.withTabs_us (s : St α) (a m : List Nat) : (s.withTabs a m).us = s.us := rfl
+@[simp] theorem St.withTabs_bs (s : St α) (a m : List Nat) : (s.withTabs a m).bs = s.bs := rfl
+@[simp] theorem St.withTabs_ids (s : St α) (a m : List Nat) : (s.withTabs a m).ids = s.ids := rfl
+theorem eGet_withTabs (s : St α) (a m : List Nat) : eGet env (s.withTabs a m) = eGet env s := rfl
+theorem uGet_withTabs (s : St α) (a m : List Nat) : uGet env (s.withTabs a m) = uGet env s := rfl
+theorem bGet_withTabs (s : St α) (a m : List Nat) : bGet (s.withTabs a m) = bGet s := rfl
+theorem iGet_withTabs (s : St α) (a m : List Nat) : iGet (s.withTabs a m) = iGet s := rfl
+
+theorem Option.bind_eq_match' {β γ : Type} (o : Option β) (g : β → Option γ) :
+    o.bind g = (match o with | none => none | some v => g v) := by cases o <;> rfl
+
+macro "tabs_auto" : tactic => `(tactic| (
+  simp -zeta only [stepE, stepU, stepB, eGet_withTabs, uGet_withTabs, bGet_withTabs, iGet_withTabs,
+    St.withTabs_es, St.withTabs_us, St.withTabs_bs, St.withTabs_ids, Option.bind_eq_match']
+  try extract_lets
+  repeat' (first
+    | rfl
+    | split_if_goal
+    | split
+    | simp +zetaDelta only)))
+
 theorem stepE_withTabs (s : St α) (a m : List Nat) (op : Op) :
     stepE env (s.withTabs a m) op = (stepE env s op).map fun r => (r.1.withTabs a m, r.2) := by
-  cases op <;> simp only [stepE, St.withTabs] <;> try rfl
-  trace_state
-  all_goals sorry
+  cases op <;> tabs_auto
+
+theorem stepU_withTabs (s : St α) (a m : List Nat) (op : Op) :
+    stepU env (s.withTabs a m) op = (stepU env s op).map fun r => (r.1.withTabs a m, r.2) := by
+  cases op <;> tabs_auto
+
+theorem stepB_withTabs (s : St α) (a m : List Nat) (op : Op) :
+    stepB env (s.withTabs a m) op = (stepB env s op).map fun r => (r.1.withTabs a m, r.2) := by
+  cases op <;> tabs_auto
+
+theorem stepT_eq_none (desc : FieldDesc) (s : St α) (op : Op) (h : op.isTables = false) :
+    stepT desc s op = none := by
+  cases op <;> first | rfl | cases h
+
+/-- an operation other than `.tables` neither reads nor writes the table-presence lists -/
+theorem step_withTabs (desc : FieldDesc) (s : St α) (a m : List Nat) (op : Op) (h : op.isTables = false) :
+    step env desc (s.withTabs a m) op
+      = ((step env desc s op).1.withTabs a m, (step env desc s op).2) := by
+  unfold step
+  rw [stepE_withTabs, stepU_withTabs, stepB_withTabs, stepT_eq_none desc _ op h, stepT_eq_none desc _ op h]
+  cases stepE env s op with
+  | some r => rfl
+  | none =>
+    cases stepU env s op with
+    | some r => rfl
+    | none =>
+      cases stepB env s op with
+      | some r => rfl
+      | none => rfl
+
+/-- equality of all registers (the table-presence lists may differ) -/
+def St.RegEq (s t : St α) : Prop := s.es = t.es ∧ s.us = t.us ∧ s.bs = t.bs ∧ s.ids = t.ids
+
+theorem St.RegEq.refl (s : St α) : St.RegEq s s := ⟨rfl, rfl, rfl, rfl⟩
+theorem St.RegEq.symm {s t : St α} (h : St.RegEq s t) : St.RegEq t s := ⟨h.1.symm, h.2.1.symm, h.2.2.1.symm, h.2.2.2.symm⟩
+theorem St.RegEq.trans {s t u : St α} (h : St.RegEq s t) (h' : St.RegEq t u) : St.RegEq s u :=
+  ⟨h.1.trans h'.1, h.2.1.trans h'.2.1, h.2.2.1.trans h'.2.2.1, h.2.2.2.trans h'.2.2.2⟩
+theorem St.RegEq.eq_withTabs {s t : St α} (h : St.RegEq s t) : t = s.withTabs t.addTabs t.mulTabs := by
+  obtain ⟨h1, h2, h3, h4⟩ := h
+  cases s; cases t; simp only [St.withTabs] at *; subst h1 h2 h3 h4; rfl
+theorem St.regEq_withTabs (s : St α) (a m : List Nat) : St.RegEq s (s.withTabs a m) := ⟨rfl, rfl, rfl, rfl⟩
+
+/-- `.tables` leaves every register alone -/
+theorem step_tables_regEq (desc : FieldDesc) (s : St α) (op : Op) (h : op.isTables = true) :
+    St.RegEq s (step env desc s op).1 := by
+  cases op <;> try (cases h; done)
+  rename_i f add mult maxMem
+  have : step env desc s (.tables f add mult maxMem)
+      = (match stepT desc s (.tables f add mult maxMem) with | some r => r | none => (s, "bad-op")) := rfl
+  rw [this]
+  cases hT : stepT desc s (.tables f add mult maxMem) with
+  | none => exact St.RegEq.refl s
+  | some r =>
+    obtain ⟨_, h1, h2, h3, h4⟩ := stepT_regs desc s _ r hT
+    exact ⟨h1.symm, h2.symm, h3.symm, h4.symm⟩
+
+/-- every other operation computes the same registers and the same reply from equal registers -/
+theorem step_regEq (desc : FieldDesc) (s t : St α) (op : Op) (hop : op.isTables = false)
+    (h : St.RegEq s t) :
+    St.RegEq (step env desc s op).1 (step env desc t op).1 ∧ (step env desc s op).2 = (step env desc t op).2 := by
+  rw [h.eq_withTabs, step_withTabs env desc s _ _ op hop]
+  exact ⟨St.regEq_withTabs _ _ _, rfl⟩
+
+/-- C18-1 for histories: dropping the `.tables` requests changes no register and no other reply -/
+theorem runOps_filter_tables (desc : FieldDesc) (s t : St α) (ops : List Op) (h : St.RegEq s t) :
+    St.RegEq (runOps env desc s ops).1 (runOps env desc t (ops.filter (!·.isTables))).1 ∧
+    ((ops.zip (runOps env desc s ops).2).filter (!·.1.isTables)).map (·.2)
+      = (runOps env desc t (ops.filter (!·.isTables))).2 := by
+  induction ops generalizing s t with
+  | nil => exact ⟨h, rfl⟩
+  | cons op rest ih =>
+    cases hop : op.isTables with
+    | true =>
+      have h' : St.RegEq (step env desc s op).1 t := (step_tables_regEq env desc s op hop).symm.trans h
+      simpa [runOps, List.filter_cons, hop] using ih _ _ h'
+    | false =>
+      obtain ⟨h1, h2⟩ := step_regEq env desc s t op hop h
+      obtain ⟨ih1, ih2⟩ := ih _ _ h1
+      simp only [runOps, List.filter_cons, hop, Bool.not_false, if_true, List.zip_cons_cons, List.map_cons]
+      exact ⟨ih1, by rw [ih2, h2]⟩
 
 end tabs
+
+/-! ### error bookkeeping -/
+
+theorem Err.wrapInherit_of_isErr {e : Err} (h : e.isErr = true) : e.wrapInherit = e := by
+  cases e <;> first | rfl | cases h
+theorem Err.wrapInherit_isErr (e : Err) : e.wrapInherit.isErr = true := by cases e <;> rfl
+theorem Err.wrapInherit_kind (k : Kind) : (Err.kind k).wrapInherit = .kind k := rfl
+theorem Err.isErr_kind (k : Kind) : (Err.kind k).isErr = true := rfl
+
+/-- the first error status in checking order -/
+def firstErr : List Err → Err
+  | [] => .none
+  | e :: t => if e.isErr then e else firstErr t
+
+theorem firstErr_mem {l : List Err} (h : ∃ e ∈ l, e.isErr = true) :
+    firstErr l ∈ l ∧ (firstErr l).isErr = true := by
+  induction l with
+  | nil => obtain ⟨e, he, _⟩ := h; cases he
+  | cons e t ih =>
+    unfold firstErr
+    by_cases he : e.isErr = true
+    · simp [he]
+    · simp only [he, Bool.false_eq_true, if_false]
+      obtain ⟨e', he', hh⟩ := h
+      rcases List.mem_cons.1 he' with rfl | hm
+      · exact absurd hh he
+      · exact ⟨List.mem_cons_of_mem _ (ih ⟨e', hm, hh⟩).1, (ih ⟨e', hm, hh⟩).2⟩
+
+section elem
+variable {α : Type} (env : Env α)
+
+theorem EReg.with_err_self (a : EReg α) (h : a.err.isErr = true) :
+    ({ a with err := a.err.wrapInherit } : EReg α) = a := by
+  rw [Err.wrapInherit_of_isErr h]
+
+theorem EReg.with_err_self' (a : EReg α) (h : a.err.isErr = true) (hf : a.foreign = false) :
+    ({ home := a.home, val := a.val, err := a.err.wrapInherit, foreign := false } : EReg α) = a := by
+  rw [Err.wrapInherit_of_isErr h, ← hf]
+
+/-- receiver erroneous (argument not foreign): the receiver itself comes back, unchanged -/
+theorem eInPlace_recvErr (op : String) (a b : EReg α) (hb : b.foreign = false) (ha : a.err.isErr = true) :
+    eInPlace env op a b = (a, a, true) := by
+  simp only [eInPlace, eCheck, hb, ha, Bool.false_eq_true, if_false, if_true, EReg.with_err_self a ha]
+
+/-- receiver clean, argument erroneous: the argument comes back, receiver untouched -/
+theorem eInPlace_argErr (op : String) (a b : EReg α) (hb : b.foreign = false) (ha : a.err.isErr = false)
+    (hbe : b.err.isErr = true) : eInPlace env op a b = (a, b, false) := by
+  simp only [eInPlace, eCheck, hb, ha, hbe, Bool.false_eq_true, if_false, if_true, EReg.with_err_self' b hbe hb]
+
+theorem eProdFn_bErr (a b c : EReg α) (bIsA cIsA : Bool) (hb : b.foreign = false) (hc : c.foreign = false)
+    (hbe : b.err.isErr = true) :
+    eProdFn env a b c bIsA cIsA = if bIsA then (b, b, true) else (a, b, false) := by
+  simp only [eProdFn, hb, hc, hbe, Bool.or_self, Bool.false_eq_true, if_false, if_true, EReg.with_err_self' b hbe hb]
+
+theorem eProdFn_cErr (a b c : EReg α) (bIsA cIsA : Bool) (hb : b.foreign = false) (hc : c.foreign = false)
+    (hbe : b.err.isErr = false) (hce : c.err.isErr = true) :
+    eProdFn env a b c bIsA cIsA = if cIsA then (c, c, true) else (a, c, false) := by
+  simp only [eProdFn, hb, hc, hbe, hce, Bool.or_self, Bool.false_eq_true, if_false, if_true,
+    EReg.with_err_self' c hce hc]
+
+/-- the receiver's own error is never consulted by `Prod`, but it is never cleared either -/
+theorem eProdFn_recv_err (a b c : EReg α) (bIsA cIsA : Bool) (ha : a.err.isErr = true) :
+    (eProdFn env a b c bIsA cIsA).1.err.isErr = true ∨
+    ((eProdFn env a b c bIsA cIsA).1 = b ∧ bIsA = true) ∨ ((eProdFn env a b c bIsA cIsA).1 = c ∧ cIsA = true) := by
+  unfold eProdFn
+  split
+  · exact .inl rfl
+  · split
+    · rename_i hbe
+      cases bIsA
+      · exact .inl ha
+      · exact .inr (.inl ⟨EReg.with_err_self b hbe, rfl⟩)
+    · split
+      · rename_i hce
+        cases cIsA
+        · exact .inl ha
+        · exact .inr (.inr ⟨EReg.with_err_self c hce, rfl⟩)
+      · split
+        · exact .inl ha
+        · exact .inl ha
+
+/-! explicit `step` equations (all by `rfl`): the objects computed by the element operations -/
+
+/-- `(new receiver, returned object, returned-is-receiver)` of `a.Copy().Op(b)` -/
+def eBinRes (s : St α) (op : String) (a b : Nat) : EReg α × EReg α × Bool :=
+  if op == "times" then eProdFn env (eGet env s a) (eGet env s a) (eGet env s b) true false
+  else eInPlace env op (eGet env s a) (eGet env s b)
+
+theorem step_eBin (desc : FieldDesc) (s : St α) (dst : Nat) (op : String) (a b : Nat) :
+    step env desc s (.eBin dst op a b)
+      = ({ s with es := St.setL s.es dst (eBinRes env s op a b).2.1 },
+         "ok " ++ showE env (eBinRes env s op a b).2.1) := rfl
+
+def eUnRes (s : St α) (op : String) (a : Nat) : EReg α :=
+  let ra := eGet env s a
+  let F := fld env ra.home
+  if op == "copy" then ra
+  else if op == "neg" then { ra with val := F.neg ra.val }
+  else if op == "trace" then (if ra.err.isErr then ra else { ra with val := F.trace ra.val })
+  else
+    if ra.err.isErr then ra
+    else match F.inv ra.val with
+      | some v => { ra with val := v }
+      | none => { home := ra.home, val := F.zero, err := .kind .inputValue }
+
+theorem step_eUn (desc : FieldDesc) (s : St α) (dst : Nat) (op : String) (a : Nat) :
+    step env desc s (.eUn dst op a)
+      = ({ s with es := St.setL s.es dst (eUnRes env s op a) }, "ok " ++ showE env (eUnRes env s op a)) := rfl
+
+def ePowRes (s : St α) (a n : Nat) : EReg α :=
+  let ra := eGet env s a
+  if ra.err.isErr then ra else { ra with val := (fld env ra.home).pow ra.val n }
+
+theorem step_ePow (desc : FieldDesc) (s : St α) (dst a n : Nat) :
+    step env desc s (.ePow dst a n)
+      = ({ s with es := St.setL s.es dst (ePowRes env s a n) }, "ok " ++ showE env (ePowRes env s a n)) := rfl
+
+def eInRes (s : St α) (op : String) (a b : Nat) : EReg α × EReg α × Bool :=
+  if op == "mult" then eProdFn env (eGet env s a) (eGet env s a) (eGet env s b) true (a == b)
+  else eInPlace env op (eGet env s a) (eGet env s b)
+
+theorem step_eIn (desc : FieldDesc) (s : St α) (op : String) (a b : Nat) :
+    step env desc s (.eIn op a b)
+      = ({ s with es := St.setL s.es a (eInRes env s op a b).1 },
+         ret (eInRes env s op a b).2.2 (showE env (eInRes env s op a b).2.1)) := rfl
+
+def eProdRes (s : St α) (a b c : Nat) : EReg α × EReg α × Bool :=
+  eProdFn env (eGet env s a) (eGet env s b) (eGet env s c) (a == b) (a == c)
+
+theorem step_eProd (desc : FieldDesc) (s : St α) (a b c : Nat) :
+    step env desc s (.eProd a b c)
+      = ({ s with es := St.setL s.es a (eProdRes env s a b c).1 },
+         ret (eProdRes env s a b c).2.2 (showE env (eProdRes env s a b c).2.1)) := rfl
+
+theorem step_eSetNeg (desc : FieldDesc) (s : St α) (a : Nat) :
+    step env desc s (.eSetNeg a)
+      = (let ra := eGet env s a
+         let r := { ra with val := (fld env ra.home).neg ra.val }
+         ({ s with es := St.setL s.es a r }, ret true (showE env r))) := rfl
+
+theorem step_eSetU (desc : FieldDesc) (s : St α) (a n : Nat) :
+    step env desc s (.eSetU a n)
+      = (let ra := eGet env s a
+         let r := { ra with val := (fld env ra.home).ofNat n }
+         ({ s with es := St.setL s.es a r }, ret true (showE env r))) := rfl
+
+end elem
 end Algobra
